@@ -109,6 +109,9 @@ def corpus():
         # mutation must reach every side, also after a plain list was assigned from the Any side (seeded C20-m10)
         "#sy|x=int:l=*int,x=int:l=*int,x=int:z=any,x=int:z=any|li 0 l 1 l 1;li 0 l 2 z 1;li 0 l 3 z 0;mu 0 l in 0 7;"
         "as 0 l [1,2,3];mu 1 l ap 4;as 2 z [5,6];mu 0 l ap 7;mu 1 l ds N N 2;mu 0 l so;un 0 l 2 z 1;mu 0 l ap 9",
+        # known finding F98: two Any partners of one List trait hold ONE list object that is no longer the hub's
+        # (the mutual link replaced the hub's list): an in-place mutation is applied to it once per partner
+        "#sy|x=int:l=*int,x=int:l=*int,x=int:z=any,x=int:z=any|li 0 l 2 z 0;li 0 l 3 z 1;li 0 l 1 l 1;mu 0 l in 0 4",
         # stale items handler after the partner died: later links still propagate
         "sy|int:int:int:int,int:int:int:int,int:int:int:int,int:int:int:int|li 0 l 1 l 0;ki 1;li 0 l 2 x 0;li 0 l 3 l 0;mu 0 l ap 1",
     ]
@@ -470,8 +473,11 @@ def _run(specs, cmds, objs, recs, swallowed, guard, falsy=""):
         def islist(pair):
             return L.is_list(specs[pair[0]], pair[1])
 
+        E_pre = None
         if fired:
-            # partners collected by a trigger while the command was propagating: their links are gone
+            # partners collected by a trigger while the command was propagating: their links are gone (but the
+            # propagation ran, in part, on the link graph as it was: a cycle through the victim counts, F60)
+            E_pre = set(D) | set(U)
             killed = midkill = True
             tags.add("died-during-propagation")
             D = {(a, b) for (a, b) in D if a[0] not in fired and b[0] not in fired}
@@ -656,6 +662,11 @@ def _run(specs, cmds, objs, recs, swallowed, guard, falsy=""):
         uniform = _uniform(specs, comp) and not any((a in comp) for (a, b) in U)
         tags.add("uniform" if uniform else "mixed")
         cyc = _has_cycle(E, comp)
+        if E_pre is not None:
+            comp_pre = _component(E_pre, p)
+            for s0 in starts:
+                comp_pre |= _component(E_pre, s0)
+            cyc = cyc or _has_cycle(E_pre, comp_pre)
         if len(comp) > 2:
             tags.add("cycle" if cyc else "tree")
         if tainted:
@@ -687,9 +698,18 @@ def _run(specs, cmds, objs, recs, swallowed, guard, falsy=""):
                 except L.Reject:
                     accepts = False
                 vb0, vb1 = val(before, b), val(after, b)
-                # a list object shared by several partners (two Any partners holding one object) receives the
-                # delta once per holder: outside the property's statement, not judged
-                shared = [hs for hs in idents.values() if b in hs and any(h != b and h != p for h in hs)]
+                # a list object shared by several partners (two Any partners holding one object that is not the
+                # mutated list itself) receives the delta once per holder (known finding F98)
+                shared = [hs for hs in idents.values() if b in hs and p not in hs
+                          and any(h != b and (p, h) in D for h in hs)]
+                if (has_list_partner and accepts and shared and isinstance(vb0, list) and vb0 == val(before, a)
+                        and kb == "any" and vb1 != val(after, a)):
+                    tainted = True
+                    hits.append(_hit("sync-diverged:partners-share-list-object", "link %s -> %s: the partner and "
+                                     "another partner of the same trait hold ONE list object (not the mutated "
+                                     "one); the delta was applied to it once per partner" % (a, b), command=cmd,
+                                     left=val(after, a), right=vb1, holders=shared, links=sorted(D)))
+                    continue
                 if (has_list_partner and accepts and not shared and isinstance(vb0, list) and vb0 == val(before, a)
                         and (kb == "any" or _kind(specs, b) == _kind(specs, a)) and vb1 != val(after, a)
                         and not (islist(b) and p in crossed and not calls(b, True))):
